@@ -18,6 +18,9 @@ Injection positions ("phases"; always from the point of view of the real endpoin
   C0  authenticated          session channel open, data flowing
   R0  rekey-running          re-exchange: peer KEXINIT processed, exchange message awaited
   R1  rekey-newkeys-sent     re-exchange: own NEWKEYS sent, peer's not yet received
+Two further client sessions (scripts C1, C2: the client prefers keyboard-interactive, password, publickey and its
+credential callbacks SUSPEND until the harness releases them) provide the windows between two methods, N0..N5,
+where the previous method has ended and the next one has not sent its request yet (see PHASE_NAMES).
 A second scripted session (several authentication methods; applications whose validators WOULD accept a
 stale answer) provides the phases around finished authentication attempts:
   server:  none (refused) - keyboard-interactive: challenge [M0], wrong answer, FAILURE [M1] - publickey
@@ -34,6 +37,8 @@ import struct
 from . import minissh as M
 
 PHASES = ['K0', 'K1', 'K2', 'E0', 'A0', 'A1', 'C0', 'R0', 'R1', 'M0', 'M1', 'M2', 'M3']
+CLIENT_PHASES = ['N0', 'N1', 'N2', 'N3', 'N4', 'N5']        # client only: the windows between two methods
+SCRIPT_OF = {'N0': 'C1', 'N1': 'C1', 'N2': 'C1', 'N3': 'C2', 'N4': 'C2', 'N5': 'C2'}
 B_PHASES = ('M0', 'M1', 'M2', 'M3')        # probed in the second scripted session (several auth methods)
 PHASE_NAMES = {
     'K0': 'pre-kexinit', 'K1': 'kex-running', 'K2': 'kex-newkeys-sent', 'E0': 'post-newkeys-pre-service',
@@ -42,7 +47,22 @@ PHASE_NAMES = {
     'M0': 'kbdint-attempt-running', 'M1': 'kbdint-attempt-failed(server)/kbdint-response-sent(client)',
     'M2': 'publickey-attempt-failed(server)/kbdint-attempt-failed(client)',
     'M3': 'password-attempt-failed(server)/authenticated-through-kbdint(client)'}
+PHASE_NAMES.update({
+    'N0': "between-methods: 'none' refused, keyboard-interactive callback pending",
+    'N1': 'between-methods: keyboard-interactive prompt cancelled after its request, password callback pending',
+    'N2': 'between-methods: password change not supported after its request, publickey callback pending',
+    'N3': 'between-methods: keyboard-interactive skipped by its callback, password callback pending',
+    'N4': 'between-methods: password callback had nothing to offer, publickey callback pending',
+    'N5': 'between-methods: publickey query refused, publickey callback pending again'})
 KBD_ANSWER = 'open sesame'
+
+
+def phases_of(role):
+    return PHASES + (CLIENT_PHASES if role == 'client' else [])
+
+
+def script_of(phase):
+    return SCRIPT_OF.get(phase) or ('B' if phase in B_PHASES else 'A')
 ROLES = ['client', 'server']
 VARIANTS = ['wf', 'empty', 'trunc', 'trail']
 PASSWORDS = {'alice': 'pw-alice', 'mallory': 'pw-mallory'}
@@ -326,19 +346,33 @@ def _define_apps():
 
         def password_auth_requested(self):
             self.sess.ev.append(('password_requested',))
+            if self.sess.gated:
+                return self.sess.gate('password')
             return PASSWORDS['alice']
 
         def password_change_requested(self, prompt, lang):
             self.sess.ev.append(('password_change_requested',))
+            self.sess.ev.append(('method_skipped', 'password-change'))
             return NotImplemented
 
         def kbdint_auth_requested(self):
             self.sess.ev.append(('kbdint_requested',))
+            if self.sess.gated:
+                return self.sess.gate('kbdint')
             return ''
 
         def kbdint_challenge_received(self, name, instructions, lang, prompts):
             self.sess.ev.append(('kbdint_challenge', len(prompts)))
+            if self.sess.gated:
+                self.sess.ev.append(('method_skipped', 'kbdint-prompt'))
+                return None                                   # the user cancels the prompt
             return [KBD_ANSWER] * len(prompts)
+
+        def public_key_auth_requested(self):
+            self.sess.ev.append(('publickey_requested',))
+            if self.sess.gated:
+                return self.sess.gate('publickey')
+            return None
 
     class Collect(asyncssh.SSHClientSession):
         def __init__(self):
@@ -364,6 +398,15 @@ def canon_msg(t, payload):
         return (t, bytes(payload[17:]))
     if M.MSG_KEX_FIRST <= t <= M.MSG_KEX_LAST:
         return (t,)
+    if t == M.MSG_USERAUTH_REQUEST:
+        try:                                # a signed publickey request: the signature covers the session id
+            r = M.Reader(payload, 1)
+            r.get_string(); r.get_string()
+            if r.get_string() == b'publickey' and r.get_bool():
+                r.get_string(); r.get_string()
+                return (t, bytes(payload[1:r.pos]) + b'<signature>')
+        except M.MiniSSHError:
+            pass
     return (t, bytes(payload[1:]))
 
 
@@ -393,10 +436,39 @@ class Sess:
         self.steps = []                  # every chunk delivered to the endpoint with what it sent in reaction
         self._step_mark = 0
         self.glue = None
+        self.gates = {}                  # suspended application callbacks: name -> future
+        self.gated = False
         self.step = 'start'
         self.connect_task = self.session_task = None
         self.chan = self.client_session = None
         self.server_factory = None
+
+    # ---- application callbacks that wait for the harness ------------------------------------------------
+    async def gate(self, name):
+        fut = asyncio.get_running_loop().create_future()
+        self.gates[name] = fut
+        self.ev.append(('callback_pending', name))
+        try:
+            return await fut
+        finally:
+            self.gates.pop(name, None)
+
+    async def release(self, name, value, cls):
+        """Answer the pending callback `name`; logged as a step of its own (type -2, cls 0 = nothing to offer)."""
+        self.feed_mini()
+        if len(self.rx) > self._step_mark:
+            self.steps.append({'chunk': [], 'outs': self._outs_since(self._step_mark), 'closed': self.ep_closed, 'ev': []})
+            self._step_mark = len(self.rx)
+        fut = self.gates.get(name)
+        if fut is None or fut.done():
+            raise Stop('release-' + name, 'callback-not-pending')
+        mark_rx, mark_ev = len(self.rx), len(self.ev)
+        fut.set_result(value)
+        await self.settle()
+        self.feed_mini()
+        self.steps.append({'chunk': [{'probe': False, 'payload': None, 'seq': None, 'pidx': None, 'release': cls}],
+                           'outs': self._outs_since(mark_rx), 'closed': self.ep_closed, 'ev': list(self.ev[mark_ev:])})
+        self._step_mark = len(self.rx)
 
     # ---- tunnel interface (asyncssh's public tunnel= hook) --------------------------------------
     async def create_server(self, session_factory, host, port, **kw):
@@ -758,6 +830,112 @@ async def script_vs_client_b(s, phase, probes):
     if phase == 'M3':
         await s.inject(probes)
 
+    await _client_tail(s, conn)
+
+
+def pk_ok_for(req_payload_after_type):
+    """PK_OK echoing algorithm and key of a publickey query (payload after the type byte)."""
+    r = M.Reader(req_payload_after_type)
+    r.get_string(); r.get_string(); r.get_string(); r.get_bool()
+    alg, blob = r.get_string(), r.get_string()
+    return M._msg(60, M.sstr(alg), M.sstr(blob))
+
+
+async def script_vs_client_c(s, phase, probes, flavour):
+    """Client sessions whose credential callbacks suspend (gated): the windows between two methods.
+    flavour 1: 'none' refused [N0] - kbdint request, challenge, prompt cancelled [N1] - password request,
+               PASSWD_CHANGEREQ, not supported [N2] - publickey: query, PK_OK, signed request, SUCCESS
+    flavour 2: 'none' refused - kbdint callback offers nothing [N3] - password callback offers nothing [N4] -
+               publickey query, FAILURE [N5] - publickey query again, PK_OK, signed request, SUCCESS"""
+    e = env()
+    asyncssh = e['asyncssh']
+    m = s.mini
+    e['cur'] = s
+    s.gated = True
+    if 'cli_options_c' not in e:
+        e['cli_key'] = asyncssh.generate_private_key('ssh-ed25519')
+        e['cli_options_c'] = asyncssh.SSHClientConnectionOptions(
+            known_hosts=None, username='alice', client_keys=None, config=None, agent_path=None,
+            client_factory=lambda: _ENV['Cli'](), kex_algs=[KEX.decode()], encryption_algs=[ENC.decode()],
+            mac_algs=[MAC.decode()], compression_algs=['none'], server_host_key_algs=[HK.decode()],
+            preferred_auth=['keyboard-interactive', 'password', 'publickey'], login_timeout=0,
+            keepalive_interval=0, connect_timeout=None)
+
+    async def connect():
+        try:
+            conn = await asyncssh.connect('mem', 22, tunnel=s, options=e['cli_options_c'])
+            s.ev.append(('connect', 'ok', conn.get_extra_info('username')))
+            return conn
+        except Exception as exc:      # noqa
+            s.ev.append(('connect', exc_class(exc)))
+            return None
+    s.connect_task = asyncio.ensure_future(connect())
+    for _ in range(50):
+        if s.conn is not None:
+            break
+        await asyncio.sleep(0)
+    if s.conn is None:
+        raise Stop('connect', 'no-connection')
+    await s.until(lambda: m.peer_version is not None and m.peer_kexinit_payload is not None, 'version')
+    m.start_rekey()
+    await s.until(lambda: m.kex_count == 1, 'kex1')
+    await s.expect(M.MSG_SERVICE_REQUEST, 'service-request')
+    s.send(M.service_accept('ssh-userauth'))
+    await s.expect(M.MSG_USERAUTH_REQUEST, 'auth-none')
+    s.send(M.userauth_failure(['keyboard-interactive', 'password', 'publickey']))
+    await s.until(lambda: 'kbdint' in s.gates, 'kbdint-callback')
+    if flavour == 1:
+        if phase == 'N0':
+            await s.inject(probes)
+        await s.release('kbdint', '', 1)
+        await s.expect(M.MSG_USERAUTH_REQUEST, 'auth-kbdint')
+        s.send(info_request())
+        await s.until(lambda: 'password' in s.gates, 'password-callback')
+        if phase == 'N1':
+            await s.inject(probes)
+        await s.release('password', PASSWORDS['alice'], 1)
+        await s.expect(M.MSG_USERAUTH_REQUEST, 'auth-password')
+        s.send(M._msg(60, M.sstr('new password please'), M.sstr('')))
+        await s.until(lambda: 'publickey' in s.gates, 'publickey-callback')
+        if phase == 'N2':
+            await s.inject(probes)
+    else:
+        await s.release('kbdint', None, 0)
+        await s.until(lambda: 'password' in s.gates, 'password-callback')
+        if phase == 'N3':
+            await s.inject(probes)
+        await s.release('password', None, 0)
+        await s.until(lambda: 'publickey' in s.gates, 'publickey-callback')
+        if phase == 'N4':
+            await s.inject(probes)
+        await s.release('publickey', e['cli_key'], 1)
+        await s.expect(M.MSG_USERAUTH_REQUEST, 'auth-publickey-1')
+        s.send(M.userauth_failure(['publickey']))
+        await s.until(lambda: 'publickey' in s.gates, 'publickey-callback-2')
+        if phase == 'N5':
+            await s.inject(probes)
+    await s.release('publickey', e['cli_key'], 1)
+    q = await s.expect(M.MSG_USERAUTH_REQUEST, 'auth-publickey-query')
+    s.send(pk_ok_for(q[1]))
+    await s.expect(M.MSG_USERAUTH_REQUEST, 'auth-publickey-signed')
+    s.send(M.userauth_success())
+    await s.until(lambda: s.connect_task.done(), 'connect-returns')
+    conn = s.connect_task.result()
+    if conn is None:
+        raise Stop('connect-returns', 'connect-failed')
+    await _client_tail(s, conn)
+
+
+async def script_vs_client_c1(s, phase, probes):
+    await script_vs_client_c(s, phase, probes, 1)
+
+
+async def script_vs_client_c2(s, phase, probes):
+    await script_vs_client_c(s, phase, probes, 2)
+
+
+async def _client_tail(s, conn):
+    """After authentication (client endpoint): session channel, echo, close."""
     async def open_session():
         try:
             chan, sess = await conn.create_session(lambda: _ENV['Collect'](), encoding=None)
@@ -919,9 +1097,10 @@ async def run_session(role, strict, phase=None, probes=(), glue=None, pos=None, 
         else:
             s.mini.inject_pos = (pos, [bytes(p) for p in probes])
     final = ('completed',)
-    script = script or ('B' if phase in B_PHASES else 'A')
+    script = script or script_of(phase)
     fn = {('server', 'A'): script_vs_server, ('client', 'A'): script_vs_client,
-          ('server', 'B'): script_vs_server_b, ('client', 'B'): script_vs_client_b}[(role, script)]
+          ('server', 'B'): script_vs_server_b, ('client', 'B'): script_vs_client_b,
+          ('client', 'C1'): script_vs_client_c1, ('client', 'C2'): script_vs_client_c2}[(role, script)]
     try:
         await fn(s, phase, [bytes(p) for p in probes])
     except Stop as st:
@@ -930,6 +1109,9 @@ async def run_session(role, strict, phase=None, probes=(), glue=None, pos=None, 
     try:
         if s.conn is not None and not s.ep_closed:
             s.conn.abort()
+        for f in list(s.gates.values()):
+            if not f.done():
+                f.cancel()
         for t in (s.connect_task, s.session_task):
             if t is not None and not t.done():
                 t.cancel()
@@ -1144,7 +1326,7 @@ async def _batch(jobs):
     twins, out = {}, []
     for job in jobs:
         role, strict, phase = job['role'], job['strict'], job['phase']
-        script = job.get('script') or ('B' if phase in B_PHASES else 'A')
+        script = job.get('script') or script_of(phase)
         key = (role, strict, script)
         if key not in twins:
             twins[key] = await run_session(role, strict, script=script)
@@ -1159,10 +1341,12 @@ async def _batch(jobs):
                                       'step': rc['step'], 'seqs': rc['seqs']}) if rc else None
             res['ev'] = _canon(tr['ev'])
         if job.get('steps'):
-            res['brief'] = [{'chunk': [(c['payload'][0] if c['payload'] else -1, bool(c['probe'])) for c in st['chunk']],
+            res['brief'] = [{'chunk': [((-2 if c.get('release') is not None else c['payload'][0] if c['payload'] else -1),
+                                        bool(c['probe'])) for c in st['chunk']],
                              'outs': [o[0] for o in st['outs']], 'ev': _canon(st['ev']), 'closed': st['closed']}
                             for st in tr['steps']]
             res['coq_steps'] = coq_steps(tr, job.get('mal', ()))
+            res['script'] = tr['script']
             res['nsteps'] = len(tr['steps'])
             res['ev'] = _canon(tr['ev'])
             res['sent50'] = sum(1 for m in tr['rx'] if m[0] == M.MSG_USERAUTH_REQUEST)
@@ -1197,7 +1381,7 @@ def table_jobs(types):
         for strict in (True, False):
             for t in types:
                 vs = variants(t, role, strict)
-                for ph in PHASES:
+                for ph in phases_of(role):
                     for name, p in vs.items():
                         jobs.append({'role': role, 'strict': strict, 'phase': ph, 't': t, 'variant': name,
                                      'probes': [p.hex()]})
@@ -1283,10 +1467,24 @@ def classify(payload, to_role, genuine, script='A'):
             else:
                 cls = 100 * u + 20
         elif t == 51:
-            # the offered methods the scripted client is configured to use (script A: password only)
+            # the offered methods the scripted client is configured to use, in its order of preference
             names = r.get_namelist()
-            cls = (1 if b'password' in names else 0) + \
-                (2 if (script == 'B' and b'keyboard-interactive' in names) else 0)
+            prefs = {'A': [b'password'], 'B': [b'keyboard-interactive', b'password']}.get(
+                script, [b'keyboard-interactive', b'password', b'publickey'])
+            code = {b'password': 1, b'keyboard-interactive': 2, b'publickey': 3}
+            lst = tuple(code[n] for n in prefs if n in names)
+            cls = {(): 0, (1,): 1, (2,): 2, (2, 1): 3, (2, 1, 3): 4, (3,): 5}.get(lst, 0)
+        elif t == 60 and to_role == 'client':
+            # PK_OK naming a key (2); otherwise an INFO_REQUEST the gated application cancels (1) / answers (0)
+            cls = 1 if script in ('C1', 'C2') else 0
+            try:
+                r2 = M.Reader(payload, 1)
+                a1 = r2.get_string()
+                r2.get_string()
+                if r2.pos == len(payload) and a1.startswith(b'ssh-') and genuine:
+                    cls = 2
+            except M.MiniSSHError:
+                pass
         elif t == 61:
             n = r.get_u32()
             cls = 0 if [r.get_string() for _ in range(n)] == [KBD_ANSWER.encode()] else 1
@@ -1302,6 +1500,9 @@ def coq_steps(tr, mal=()):
     for st in tr['steps']:
         chunk = []
         for c in st['chunk']:
+            if c.get('release') is not None:
+                chunk.append('((-2),%d,false)' % c['release'])
+                continue
             t, cls = classify(c['payload'], to_role, not c['probe'], tr.get('script', 'A'))
             chunk.append('(%s,%s,%s)' % (_cz(t), _cz(cls), 'true' if (c['probe'] and c.get('pidx') is not None and c['pidx'] < len(mal) and mal[c['pidx']])
                                          else 'false'))
@@ -1317,6 +1518,9 @@ def coq_chunks(steps, to_role, script='A'):
     for st in steps:
         chunk = []
         for c in st['chunk']:
+            if c.get('release') is not None:
+                chunk.append('((-2),%d,false)' % c['release'])
+                continue
             t, cls = classify(c['payload'], to_role, not c['probe'], script)
             chunk.append('(%s,%s,false)' % (_cz(t), _cz(cls)))
         out.append('[' + ';'.join(chunk) + ']')
